@@ -179,9 +179,43 @@ fn ids_unit(depth: usize) -> Unit {
     seq_unit(c)
 }
 
+/// Topics created / re-created concurrently: ids stay globally unique.
+fn concurrent_ids_unit(name: &'static str, progs: Vec<Vec<crate::litmus::COp>>, pre: bool, d: usize) -> Unit {
+    use crate::litmus::*;
+    let desc = format!("{:?}: every message id returned is distinct", progs);
+    let f: ScenFn = scen!([progs] |cx| {
+        if pre {
+            must!(cx, "setup:create-topic", { let a = cx.api.clone(); async move { a.create_topic(T0).await } });
+            must!(cx, "setup:publish", { let a = cx.api.clone(); async move { a.publish(T0, vec![(b"pre".to_vec(), vec![])]).await } });
+        }
+        let l = start(&cx, &progs, &[]);
+        tryv!(await_termination(&cx, &l, name).await);
+        let key = l.hist.key();
+        let mut seen = std::collections::BTreeSet::new();
+        for c in l.hist.calls() {
+            if let R::Ids(Ok(ids)) = &c.result {
+                for id in ids {
+                    if !seen.insert(id.clone()) {
+                        return ScenarioOut::viol(format!("{}/duplicate-message-id", name), format!("message id {} was returned for two distinct messages: {}", id, key));
+                    }
+                }
+            }
+        }
+        ScenarioOut::ok(format!("{} ids={}", key, seen.len()))
+    });
+    explore_unit(format!("sched/{}", name), desc, Bounds::new(d), ExecCfg::default(), f)
+}
+
 pub fn units(thorough: bool) -> Vec<Unit> {
+    use crate::litmus::COp::*;
     let _ = must_use();
-    vec![integrity_unit(), ids_unit(if thorough { 8 } else { 6 })]
+    let d = if thorough { 4 } else { 3 };
+    vec![
+        integrity_unit(),
+        ids_unit(if thorough { 8 } else { 6 }),
+        concurrent_ids_unit("create‖create;publish", vec![vec![CreateTopic(T0), Publish(T0, 2)], vec![CreateTopic(T1), Publish(T1, 2)]], false, d),
+        concurrent_ids_unit("delete;create‖create;publish", vec![vec![DeleteTopic(T0), CreateTopic(T0), Publish(T0, 1)], vec![CreateTopic(T1), Publish(T1, 1)], vec![Publish(T0, 1)]], true, d),
+    ]
 }
 
 fn must_use() -> bool {
